@@ -988,6 +988,9 @@ class Unit:
         if symbol in cls._by_symbol:
             raise ValueError(f"A unit with symbol {symbol} is already defined")
 
+        # refuse an unusable symbol before the new unit is interned
+        cls._check_alias(None, name, symbol)
+
         unit = cls(IdentityPrefix, {}, dimension, name, symbol)
         cls._base.add(unit)
         return unit
@@ -1029,22 +1032,32 @@ class Unit:
             raise ValueError("No need to define conversions for a unit and itself")
         conversions.equate(1 * self, other)
 
-    def alias(self, name: Optional[str] = None, symbol: Optional[str] = None) -> None:
-        """Adds an alternative name and/or symbol to the unit"""
+    @classmethod
+    def _check_alias(
+        cls, unit: Optional["Unit"], name: Optional[str], symbol: Optional[str]
+    ) -> None:
+        """Raises if the name or symbol may not be given to the unit"""
         if name:
-            if name in self._by_name and self._by_name[name] is not self:
+            if name in cls._by_name and cls._by_name[name] is not unit:
                 raise ValueError(f"A unit named {name} is already defined")
 
+        if symbol:
+            if symbol in cls._by_symbol and cls._by_symbol[symbol] is not unit:
+                raise ValueError(f"A unit with symbol {symbol} is already defined")
+
+            if " " in symbol:
+                raise ValueError(f"{symbol!r} will not be parsable if it has spaces.")
+
+    def alias(self, name: Optional[str] = None, symbol: Optional[str] = None) -> None:
+        """Adds an alternative name and/or symbol to the unit"""
+        # validate everything first, so that a refused alias registers nothing
+        self._check_alias(self, name, symbol)
+
+        if name:
             self.names = self.names + (name,)
             self._by_name[name] = self
 
         if symbol:
-            if symbol in self._by_symbol and self._by_symbol[symbol] is not self:
-                raise ValueError(f"A unit with symbol {symbol} is already defined")
-
-            if symbol and " " in symbol:
-                raise ValueError(f"{symbol!r} will not be parsable if it has spaces.")
-
             self.symbols = self.symbols + (symbol,)
             self._by_symbol[symbol] = self
 
